@@ -761,4 +761,34 @@ def mon_C18(stream, case, obs):
     return hits
 
 
-MONITORS = {"C18": mon_C18, "C14": mon_C14, "C06": mon_C06, "C08": mon_C08, "C01": mon_C01, "C02": mon_C02, "C03": mon_C03, "C10": mon_C10, "C12": mon_C12, "C13": mon_C13, "C16": mon_C16}
+def mon_C19(stream, case, obs):
+    """a rejected publish()/subscribe()/unsubscribe() has no other effect: nothing written, queued or stored, no state retained
+    (read-only probe before = after); and a call with allowed arguments is not rejected"""
+    hits = []
+    cfg = parse_cfg(case[0])
+    for i, (line, o) in enumerate(zip(case, obs)):
+        t = line.split()
+        if t[0] not in ("publish", "subscribe", "unsubscribe") or i == 0:
+            continue
+        evs, pd = parse_obs(o)
+        _, before = parse_obs(obs[i - 1])
+        raised = [e for e in evs if e.startswith("exc:")]
+        if t[0] == "publish":
+            topic, qos = unhx(t[2]), int(t[1])
+            bad = b"+" in topic or b"#" in topic or not 0 <= qos <= 2 or len(topic) > 65535 or (len(topic) == 0 and int(pd.get("proto", cfg["proto"])) != 5)
+        elif t[0] == "subscribe":
+            bad = not wire.valid_filter(unhx(t[1])) or not 0 <= int(t[2]) <= 2
+        else:
+            bad = len(unhx(t[1])) == 0
+        if bad:
+            if raised != ["exc:ValueError"]:
+                hits.append((i, "not-rejected", f"{line[:60]}: invalid argument, expected ValueError, got {evs[:4]}"))
+            if len(evs) != len(raised) or before != pd:
+                diff = {k: (before.get(k), pd.get(k)) for k in pd if before.get(k) != pd.get(k)}
+                hits.append((i, "reject-not-atomic", f"{line[:60]}: rejected call left a trace: events {evs[:4]}, state changes {diff}"))
+        elif raised and raised[0] in ("exc:ValueError", "exc:TypeError"):
+            hits.append((i, "valid-rejected", f"{line[:60]}: allowed arguments rejected with {raised[0]}"))
+    return hits
+
+
+MONITORS = {"C19": mon_C19, "C18": mon_C18, "C14": mon_C14, "C06": mon_C06, "C08": mon_C08, "C01": mon_C01, "C02": mon_C02, "C03": mon_C03, "C10": mon_C10, "C12": mon_C12, "C13": mon_C13, "C16": mon_C16}
